@@ -556,6 +556,20 @@ fn c01(args: &Args) -> ! {
             }
         }
     }
+    // a content handed over as a file that opens a new cluster right after a full one was written
+    for comp in [Comp::None, Comp::Zstd(5)] {
+        for pre in [Pre { raw_blobs: 4095, comp_blobs: 0, comp_bytes: 0, raw_bytes: 0 }, Pre { raw_blobs: 4094, comp_blobs: 0, comp_bytes: 0, raw_bytes: 0 }, Pre { raw_blobs: 0, comp_blobs: 4095, comp_bytes: 0, raw_bytes: 0 }] {
+            for src in [Src::FileWhole, Src::FileRange] {
+                for hint in [Hint::No, Hint::Yes] {
+                    let f = Item { len: 3000, entropy: Entropy::Low, hint, src, tag: 61 };
+                    let m = Item { len: 7, entropy: Entropy::Low, hint, src: Src::Memory, tag: 62 };
+                    scs.push(Scenario { comp, cached: false, packaging: Packaging::Bare, pre: pre.clone(), items: vec![f.clone()] });
+                    scs.push(Scenario { comp, cached: false, packaging: Packaging::Bare, pre: pre.clone(), items: vec![m.clone(), f.clone()] });
+                    scs.push(Scenario { comp, cached: false, packaging: Packaging::Bare, pre: pre.clone(), items: vec![f, m] });
+                }
+            }
+        }
+    }
     // the 4 MiB split rule of compressed clusters (and of the cached adder's in-memory path)
     let mib_lens: Vec<usize> = if t { vec![MIB4 - 1, MIB4, MIB4 + 1] } else { vec![MIB4 - 1, MIB4] };
     for comp in [Comp::None, Comp::Zstd(5), Comp::Lz4(3)] {
@@ -634,7 +648,7 @@ fn c16(args: &Args) -> ! {
     let mut rep = Report::new(
         "seqmc",
         "C16",
-        "every sequence of length <=3 (quick) / <=4 (thorough) over {A low entropy, B high entropy, A again, empty} x hint {Yes,No,Detect} for every compression {none,lz4,lzma,zstd} x adder {direct,cached} x packaging {bare, one-file}; the produced bytes are decoded by the independent decoder (own CRC, codec crates) and each content's cluster compression, verbatim bytes / decompressed bytes, address sharing and content count are compared with the property; plus, under the deduplicating adder, contents equal except for their last byte (10 bytes .. 4 MiB + 70000, memory and file); plus 400 incompressible bytes followed by a run of 0..48 (thorough 96) bytes with hint Yes (stored size below, equal to and above the plain size); plus contents handed over as whole files and as sub-ranges of files (explicit hints, 3 lengths, alone and second); plus non-initial states (clusters 0..1 blobs short of the 4095-blob limit, raw and/or compressed) followed by every sequence of length <=2 over {A, empty} x {Yes, No}; non-trivial = at least one content with hint Yes or No",
+        "every sequence of length <=3 (quick) / <=4 (thorough) over {A low entropy, B high entropy, A again, empty} x hint {Yes,No,Detect} for every compression {none,lz4,lzma,zstd} x adder {direct,cached} x packaging {bare, one-file}; the produced bytes are decoded by the independent decoder (own CRC, codec crates) and each content's cluster compression, verbatim bytes / decompressed bytes, address sharing and content count are compared with the property; plus, under the deduplicating adder, contents equal except for their last byte (10 bytes .. 4 MiB + 70000, memory and file); plus 400 incompressible bytes followed by a run of 0..48 (thorough 96) bytes with hint Yes (stored size below, equal to and above the plain size); plus contents handed over as whole files and as sub-ranges of files (explicit hints, 3 lengths, alone and second); plus non-initial states (clusters 0..1 blobs short of the 4095-blob limit, raw and/or compressed) followed by every sequence of length <=2 over {A, empty} x {Yes, No}, and by a content handed over as a file (whole / sub-range, alone or after a small one); non-trivial = at least one content with hint Yes or No",
     );
     let mut acc = Acc { states: BTreeSet::new(), transitions: BTreeSet::new(), conformed: 0, multi: 0, mixed: 0, widths: BTreeSet::new() };
     if let Some(p) = &args.replay {
@@ -742,6 +756,19 @@ fn c16(args: &Args) -> ! {
                         let items: Vec<Item> = seq.iter().map(|&k| follow(k)).collect();
                         scs.push(Scenario { comp, cached: false, packaging: Packaging::Bare, pre: pre.clone(), items });
                     }
+                }
+            }
+        }
+    }
+    // a content handed over as a file that opens a new cluster right after a full one was written
+    for comp in [Comp::None, Comp::Zstd(5)] {
+        for pre in [Pre { raw_blobs: 4095, comp_blobs: 0, comp_bytes: 0, raw_bytes: 0 }, Pre { raw_blobs: 0, comp_blobs: 4095, comp_bytes: 0, raw_bytes: 0 }] {
+            for src in [Src::FileWhole, Src::FileRange] {
+                for hint in [Hint::No, Hint::Yes] {
+                    let f = Item { len: 3000, entropy: Entropy::Low, hint, src, tag: 61 };
+                    let m = Item { len: 7, entropy: Entropy::Low, hint, src: Src::Memory, tag: 62 };
+                    scs.push(Scenario { comp, cached: false, packaging: Packaging::Bare, pre: pre.clone(), items: vec![f.clone()] });
+                    scs.push(Scenario { comp, cached: false, packaging: Packaging::Bare, pre: pre.clone(), items: vec![m, f] });
                 }
             }
         }
